@@ -56,3 +56,68 @@ c.ensure("ncwb.complete", lambda cx, result, self: S.forall_int(lambda q: z3.Imp
 c.ensure("ncwb.descending", lambda cx, result, self: S.forall(0, result[0].n, lambda i: S.forall(
     0, result[0].n, lambda j: z3.Implies(i < j, S.at(result[0], i) > S.at(result[0], j)))))
 c.ensure("limit", lambda cx, result, self: result[0].n <= S._t(cx.get(self, "_max_ncwb")))
+
+
+# ---------------------------------------------------------------- _create_prefix (word level)
+from pyvc.values import IP_OK, IP_PARSE, WS_LEN, WS_ARR, POW2, TBIT, netmask_of, bit_macro   # noqa: E402
+
+M32 = z3.BitVecVal(0xFFFFFFFF, BVW)
+
+
+def _tok(line, i):
+    return WS_ARR(S._t(line))[i]
+
+
+cp = contract("cisco_acl.wildcard.Wildcard._create_prefix", dict(line=TStr), TTuple(TBV, TBV), props=("C05",))
+cp.may_raise("ValueError", lambda cx, line: z3.Or(WS_LEN(S._t(line)) != 2, z3.Not(IP_OK(_tok(line, 0))), z3.Not(IP_OK(_tok(line, 1)))))
+cp.ensure("masked", lambda cx, result, line: z3.And(
+    S._t(result[1]) == IP_PARSE(_tok(line, 1)),
+    S._t(result[0]) == (IP_PARSE(_tok(line, 0)) & ~IP_PARSE(_tok(line, 1)) & M32),
+    (S._t(result[0]) & S._t(result[1])) == 0,
+    z3.ULE(S._t(result[0]), 0xFFFFFFFF), z3.ULE(S._t(result[1]), 0xFFFFFFFF)))
+
+# ---------------------------------------------------------------- ipnets (raw body behind lru_cache)
+# ghost: POSIDX(p) = index of position p in self._ncwb (or -1); NETADDR(u) = address of the u-th generated network
+POSIDX = z3.Function("ncwb_index_of", z3.IntSort(), z3.IntSort())
+NETADDR = z3.Function("net_address", z3.IntSort(), z3.BitVecSort(BVW))
+
+
+def _bit(w, c):
+    return z3.Extract(c, c, w) == 1
+
+
+def _ncwb_wf(ncwb):
+    q = z3.Int("q!wf")
+    return z3.And(
+        S.forall(0, ncwb.n, lambda i: z3.And(0 <= S.at(ncwb, i), S.at(ncwb, i) < 32, POSIDX(S.at(ncwb, i)) == i)),
+        z3.ForAll([q], z3.Or(POSIDX(q) == -1, z3.And(0 <= POSIDX(q), POSIDX(q) < ncwb.n, ncwb.a[POSIDX(q)] == q))),
+        ncwb.n <= 30)
+
+
+def _spread_bit(ncwb, u, c, upto, base):
+    """bit c of the word built from `base` by writing the first `upto` tuple elements of tuple u at their positions"""
+    k = ncwb.n
+    return z3.If(z3.And(0 <= POSIDX(c), POSIDX(c) < upto), TBIT(u, k - 1 - POSIDX(c)) == 1, _bit(base, c))
+
+
+def _netaddr_def(prefix_i, ncwb):
+    """definition of the ghost NETADDR(u): prefix with the tuple bits of u spread over the ncwb positions"""
+    u = z3.Int("u!na")
+    return z3.ForAll([u], z3.And(z3.ULE(NETADDR(u), 0xFFFFFFFF),
+                                 *[_bit(NETADDR(u), c) == _spread_bit(ncwb, u, c, ncwb.n, S._t(prefix_i)) for c in range(32)]))
+
+
+# the network generator behind Wildcard.ipnets(): a memoised *function of values* (pure), so memoisation is transparent
+ip = contract("cisco_acl.wildcard._ipnets", dict(prefix_i=TBV, ncwb=TList(TInt), prefixlen=TInt), TList(TNet), props=("C05",),
+              ghost={"loop_var_types": {"ipnets": TList(TNet)}})
+ip.require("words", lambda cx, prefix_i, ncwb, prefixlen: z3.And(z3.ULE(S._t(prefix_i), 0xFFFFFFFF), 0 <= S._t(prefixlen), S._t(prefixlen) <= 32))
+ip.require("ncwb", lambda cx, prefix_i, ncwb, prefixlen: _ncwb_wf(ncwb))
+ip.require("no host bits", lambda cx, prefix_i, ncwb, prefixlen: z3.And(
+    (S._t(prefix_i) & ~netmask_of(S._t(prefixlen))) == 0,
+    S.forall(0, ncwb.n, lambda i: S.at(ncwb, i) >= 32 - S._t(prefixlen))))
+ip.require("ghost NETADDR", lambda cx, prefix_i, ncwb, prefixlen: _netaddr_def(prefix_i, ncwb))
+ip.ensure("count", lambda cx, result, prefix_i, ncwb, prefixlen: result.n == POW2(ncwb.n))
+ip.ensure("nets", lambda cx, result, prefix_i, ncwb, prefixlen: S.forall(0, result.n, lambda u: result.a[u] == Net.mk_net(NETADDR(u), S._t(prefixlen))))
+ip.loop(0, lambda cx, k, v: z3.And(v.ipnets.n == k, S.forall(0, k, lambda u: v.ipnets.a[u] == Net.mk_net(NETADDR(u), S._t(v.prefixlen)))))
+ip.loop(1, lambda cx, k, v: z3.And(z3.ULE(S._t(v.prefix_i_), 0xFFFFFFFF),
+                                   *[_bit(S._t(v.prefix_i_), c) == _spread_bit(v.ncwb, getattr(v, "__k0__"), c, k, S._t(v.prefix_i)) for c in range(32)]))
